@@ -31,6 +31,7 @@ type Tape struct {
 	Cycle        []string `json:"cycle,omitempty"`         // when set, the tail is this sequence repeated for ever instead of one constant response
 	GapS         int64    `json:"gap_s,omitempty"`         // simulated seconds between the earlier calls and the judged one (tickets then live 10 minutes, renewable)
 	Warm         []string `json:"warm,omitempty"`          // earlier calls of the same spnego.Client (GET), each against a server answering this kind for ever
+	RespBody     string   `json:"resp_body,omitempty"`     // "" = a few bytes | endless: every response (but those to HEAD) has a body that never ends (seeded runs)
 	KDCDown      string   `json:"kdc_down,omitempty"`      // during the judged call no KDC can be reached: refuse | silent | close (seeded runs)
 	PreAuth      string   `json:"pre_auth,omitempty"`      // api=do: the request handed to Do already carries an Authorization header: stale (a Negotiate token left by an earlier use of the request) | basic
 }
@@ -80,7 +81,7 @@ func Meta() core.Meta {
 		Rule:       "case = one run: a logged-in real client issues one HTTP call through spnego.Client against a scripted server: every response sequence of length <= 3 (quick) / <= 5 (thorough) over {200, 401 bare Negotiate, 401 Negotiate with reject token, 401 other scheme, 302 same host, 302 other host, 500} followed by each constant tail is enumerated; method {GET, HEAD, POST, PUT}, body size {0, 1, 4 KiB, 1 MiB}, how much of the body the server reads before answering {all, k bytes, none}, explicit or URL-derived SPN (port, trailing dot, CNAME, failed look-up, upper case) and the etype of the service ticket are drawn per case; seeded runs also spell the challenge in the other legal forms (second header field after Basic, list in one field, lower case), hand Do a request that already carries an Authorization header, and reuse the client after earlier calls; distinct = distinct (script, tail, method, body class, read class, SPN class, outcome); non-trivial = the server sent at least one challenge or redirect",
 		SweepQuick: scriptsUpTo(3), SweepThorough: scriptsUpTo(5),
 		SeededQuick: 1500, SeededThorough: 60000,
-		WorkloadProbes: []string{"challenged", "challenged-with-body", "early-response-before-body-read", "ever-challenging-tail", "ever-redirecting-tail", "periodic-tail", "reused-client", "reused-client-after-redirect-limit", "reused-client-after-ticket-expiry", "challenge-in-other-legal-form", "request-arrives-with-authorization-header", "redirect-after-reuse", "cross-realm-service", "redirect-then-challenge", "spn-derived-via-cname", "spn-derived-lookup-failed", "token-checked-by-acceptor", "kdc-unreachable-during-the-call"},
+		WorkloadProbes: []string{"challenged", "challenged-with-body", "early-response-before-body-read", "ever-challenging-tail", "ever-redirecting-tail", "periodic-tail", "reused-client", "reused-client-after-redirect-limit", "reused-client-after-ticket-expiry", "challenge-in-other-legal-form", "request-arrives-with-authorization-header", "redirect-after-reuse", "cross-realm-service", "redirect-then-challenge", "spn-derived-via-cname", "spn-derived-lookup-failed", "token-checked-by-acceptor", "kdc-unreachable-during-the-call", "response-bodies-that-never-end"},
 		Components: map[string]string{
 			"spnego.Client (Do/Get/Post/Head), SetSPNEGOHeader, setRequestSPN, SPNEGOClient, NewNegTokenInitKRB5, NewKRB5TokenAPREQ, krb5 client, token encoders": "real",
 			"net/http client (redirect policy, cookie jar)": "real",
@@ -203,6 +204,10 @@ func Gen(caseID, tier string) (json.RawMessage, error) {
 	}
 	if kind == "seed" && tp.API == "do" && r.Chance(1, 6) {
 		tp.PreAuth = r.Pick("stale", "stale", "basic")
+	}
+	if kind == "seed" && r.Chance(1, 5) {
+		// the bodies of the server's responses belong to the peer: they may never end
+		tp.RespBody = "endless"
 	}
 	if kind == "seed" && r.Chance(1, 6) {
 		// the KDCs cannot be reached while the judged call runs: whatever the server answers, the call
